@@ -1,4 +1,4 @@
-CONSTANTS MaxN = 4  Side = 5  Dim = 1
+CONSTANTS MaxN = 4  Side = 5  Dim = 1  QMargin = 1
 SPECIFICATION Spec
 INVARIANT TreeOK
 INVARIANT SearchOK
